@@ -44,6 +44,10 @@ GSpec == GInit /\ [][GNext]_<<vars, hist>>
 \* GStep refines Next (checked by TLC on every generated step)
 GStepIsNext == [][Next]_vars
 
+\* the rule table (all strings the drivers use), printed once per run
+ASSUME TLCSet(2, 0)
+EmitFmts == TLCGet(2) = 1 \/ (TLCSet(2, 1) /\ PrintT("@@F " \o ToJson(NmDriverTable)))
+
 Emit == Len(hist) = Depth =>
           PrintT("@@B " \o ToJson([interval |-> interval, wait |-> wait, fmt |-> fmt, steps |-> hist]))
 =============================================================================
